@@ -219,7 +219,7 @@ func c03(r *vlib.Run) int {
 		"patterns (anchors, negated and POSIX classes, \\s, \\b, alternation, (?i), the no-op patterns) checked with Go regexp on "+
 		"the bare line; e2e tier: real dgrep --plain (serverless and over SSH). distinct = distinct (file, pattern, invert, b, a, m); "+
 		"non-trivial: all counted (context state machine is exercised by each).", L))
-	r.Assume("the no-op patterns '', '.', '.*' are not combined with --invert (the statement only says they select every line)")
+	r.Assume("the no-op patterns '', '.', '.*' select every line with and without --invert (the statement says they select every line and makes no exception for the polarity flag; the code agrees)")
 	r.Assume("e2e content avoids a leading '.' and byte 0xAC (known findings of C01)")
 
 	var cases []interface{}
@@ -255,6 +255,7 @@ func c03(r *vlib.Run) int {
 		switch rng.Intn(10) {
 		case 0:
 			c.Pattern = []string{"", ".", ".*"}[rng.Intn(3)]
+			c.Invert = rng.Intn(2) == 0 // the statement: these patterns select every line (whatever the polarity flag)
 		default:
 			c.Pattern = genRegex(rng, words)
 			c.Invert = rng.Intn(3) == 0
@@ -336,6 +337,7 @@ func c03E2E(r *vlib.Run) {
 		}
 		if rng.Intn(10) == 0 {
 			c.Pattern = []string{".", ".*"}[rng.Intn(2)]
+			c.Invert = rng.Intn(2) == 0
 		} else {
 			c.Pattern = genRegex(rng, words)
 			c.Invert = rng.Intn(3) == 0
